@@ -10,9 +10,10 @@ What is proved here, for ALL networks / spaces / states (no bounds):
 * `euler_dxdt_eq_rate_graph`, `euler_step_graph` : on every graph (parallel edges and self-loops included) the Euler
   derivative of a non-chemostated entry IS `rate`, and one step is `x + dt·rate x`;
 * `euler_dxdt_eq_rate_grid`, `euler_step_grid` : the same on every grid, under the named geometry hypothesis
-  `EngGridOKAt g i` (the engine's neighbour table lists the Spec's six-neighbourhood and is involutive) — a statement
-  about `GetNeighborIndex`/`BuildMeshNeighbors` that belongs to C15 (proved there for all w,h,d and boundary settings;
-  here it is decided by kernel evaluation on concrete grids, see the examples).  PARTIAL in that sense.
+  `EngGridOKAt g i` (the engine's neighbour table lists the Spec's six-neighbourhood and is involutive); the involution
+  is discharged for every valid grid by `nbr_involutive` (Proofs/Grid.lean) in `euler_dxdt_eq_rate_grid_valid`, which
+  leaves ONE hypothesis: the six slots of `GetNeighborIndex` list `Spec.gridNbrs` (same order).  It is decided by kernel
+  evaluation on concrete grids (see the examples) and exercised by the correspondence on every run.  PARTIAL in that sense.
 * `marshal_*` : the tables written by `build_*_matrix` are read back by the engine's generated index formulas
   (`k[e*nr+r]`, `sub/sto[s*nr+r]`, `D[s*ne+e]`), reversible reactions are split as (2r, 2r+1), and what they contain is the
   physical system expressed in the engine's units;
@@ -28,6 +29,7 @@ the exception-threading folds), hence `three_agree` as a single theorem; float r
 -/
 import Strengths.Proofs.Kinetics
 import Strengths.Proofs.Units
+import Strengths.Proofs.Grid
 
 namespace Strengths.C01
 open Strengths Strengths.Gen Strengths.Spec
@@ -93,6 +95,16 @@ theorem euler_step_grid (P : Phys) (nEnv : Nat) (g : GridShape) (h : Rat) (chem 
   show x.get i s + eulerDxdt (engOfPhysGrid P nEnv g h chem) x i s * dt = _
   rw [euler_dxdt_eq_rate_grid P nEnv g h chem x i s hh hvol hedge hfaces hok hc]
   ring
+
+/-- with the neighbour involution proved for every valid grid (`nbr_involutive`, Proofs/Grid.lean, C15) the only remaining
+geometry hypothesis is that the six slots of cell `i` list the Spec's six-neighbourhood in the same order -/
+theorem euler_dxdt_eq_rate_grid_valid (P : Phys) (nEnv : Nat) (g : GridShape) (h : Rat) (chem : Nat → Nat → Bool) (x : State)
+    (i s : Nat) (hv : g.valid = true) (hi : i < g.size) (hh : h ≠ 0) (hvol : ∀ j, P.vol j = h ^ 3) (hedge : ∀ j, P.edge j = h)
+    (hfaces : P.faces i = gridFaces g.w g.h g.d g.px g.py g.pz h i)
+    (hnb : (List.range 6).filterMap (engNbr? g i) = gridNbrs g.w g.h g.d g.px g.py g.pz i) (hc : chem i s = false) :
+    eulerDxdt (engOfPhysGrid P nEnv g h chem) x i s = rate P x.get s i :=
+  euler_dxdt_eq_rate_grid P nEnv g h chem x i s hh hvol hedge hfaces
+    ⟨hnb, fun _ _ hn hget => (nbr_involutive hv hi hn hget).1⟩ hc
 
 /-- the geometry hypothesis is decidable on a concrete grid; instances by kernel evaluation (periodic axes of length 1, 2
 and 3, mixed boundary settings) — non-vacuity of the grid theorems -/
